@@ -24,7 +24,7 @@ THEOREMS = ['marker_eq', 'terrapin_exact', 'only_enc_mac', 'other_role_marker_ig
             'suppressed_not_recommended']
 # functions of the code whose Lean definitions are regenerated from the source on every run (harness/translate_logic.py); `GenLogic.<name>_eq_model`
 # (lean/SshAudit/Props/GenLogic*.lean) ties each to the hand-written model function the theorems above are about
-GEN_LOGIC = ['is_chacha', 'is_cbc', 'is_etm']
+GEN_LOGIC = ['is_chacha', 'is_cbc', 'is_etm', 'terrapin_rule']
 TECHNIQUE = 'Lean 4 theorems (set characterisation of the rule, frame lemmas for in-place database edits by induction over the marked lists) + exhaustive boolean-grid correspondence through output()'
 LEVEL_TEXT = ('The rule "no strict-kex marker for the role, and ChaCha20-Poly1305 or (CBC and EtM)" is proved to determine exactly which database entries gain the Terrapin warning in the database the report '
               'is rendered from — for arbitrary lists and roles — and the advisory note / suppress list are characterised likewise. The grid of the quantifier is run exhaustively through the real output() and compared with the model.')
